@@ -1394,10 +1394,11 @@ func (sys *System) ClearLocationStats(ctx *Context, location string) error {
 	defer sys.releaseLocation(ctx, location)
 	if err != nil {
 		Log(ERROR, ctx, "System.ClearLocationStats", "location", location, "error", err)
+	} else {
+		loc.ClearStats()
 	}
-	loc.ClearStats()
 	atomic.AddUint64(&sys.stats.TotalTime, uint64(Now()-then))
-	return nil
+	return sys.stats.IncErrors(err)
 }
 
 // RunJavascript allows location-specific Javascript testing.
